@@ -1254,6 +1254,10 @@ func (w *vfc18World) replayFile(t *testing.T, r *vfutil.Rand, path string) bool 
 		w.rdbCase(vfc18RdbCase{Replace: flag("replaceHashTag"), Restore: flag("restore"), FirstBin: flag("firstBin"), Splited: flag("splited"),
 			CanRestore: flag("canRestore"), Expire: flag("expire"), KeyExists: str("keyExists"), Key: vfutil.UnHex(str("key")), Kind: num("kind"), N: num("n")}, 0)
 		s.Count("replayed_rdb_case")
+	case m["realrdb"] != nil:
+		sub, _ := strconv.ParseUint(str("realrdb"), 10, 64)
+		w.realRdbCase(sub, 0)
+		s.Count("replayed_real_rdb_case")
 	case m["shards"] != nil:
 		w.globalCases(r, 20) // the case is the slot layout, drawn again: the lane has no other input
 		s.Count("replayed_global_cases")
@@ -1433,6 +1437,7 @@ func TestVerifC18(t *testing.T) {
 	// ---- the real parser + send loops into the node doubles; snapshot phase; global lane
 	w.loopCases(r, vfutil.Scale(60, 1500))
 	w.rdbCases(r, vfutil.Scale(300, 6000))
+	w.realRdbCases(r, vfutil.Scale(300, 5000))
 	w.globalCases(r, vfutil.Scale(10, 100))
 
 	// ---- corpus, then generated transactions
